@@ -1,6 +1,6 @@
 (* C08 — allocator propagation follows std::allocator_traits. *)
 From Coq Require Import ZArith List Bool.
-From Cntgs Require Import Base Layout Mem Vector World Spec Rep WorldThm.
+From Cntgs Require Import Base Layout Mem Vector World Spec Rep WorldThm NtWorld.
 Import ListNotations.
 Local Open Scope Z_scope.
 
@@ -54,3 +54,34 @@ Theorem C08_swap : forall L K a b la lb, Rep L a la -> Rep L b lb ->
   v_aid (snd (swap_vec K a b)) = (if pocs K then v_aid a else v_aid b).
 Proof. exact swap_spec. Qed.
 Print Assumptions C08_swap.
+
+(* ... and for EVERY well-formed parameter list, non-trivial value types included
+   (NtWorld.v): the relocation through the copy / move constructors reproduces every byte in
+   the target (NtRefine.insert_into_mem); a copy leaves the source record untouched; after an
+   element-wise move the source keeps its block, only its memory differs (moved-from
+   objects) *)
+Theorem C08_copy_construction_every_list : forall L, wf_plist L = true ->
+  forall K src l junk nb, Rep L src l ->
+  let '(d, src', evs, nb') := copy_ctor K L src junk nb in
+  Rep L d l /\ src' = src /\ v_aid d = soccc K (v_aid src) /\
+  v_cap d = v_cap src /\ v_fixed d = v_fixed src /\ v_bid d = Some nb.
+Proof. exact copy_ctor_spec_nt. Qed.
+Print Assumptions C08_copy_construction_every_list.
+
+Theorem C08_copy_assignment_every_list : forall L, wf_plist L = true ->
+  forall K d src l junk nb, Rep L src l ->
+  let '(d', src', evs, nb') := copy_assign K L d src junk nb in
+  Rep L d' l /\ src' = src /\
+  v_aid d' = (if pocca K then v_aid src else v_aid d) /\
+  v_cap d' = v_cap src /\ v_fixed d' = v_fixed src.
+Proof. exact copy_assign_spec_nt. Qed.
+Print Assumptions C08_copy_assignment_every_list.
+
+Theorem C08_move_assignment_every_list : forall L, wf_plist L = true ->
+  forall K d src l junk nb, Rep L src l ->
+  let '(d', src', evs, nb') := move_assign K L d src junk nb in
+  Rep L d' l /\
+  v_aid d' = (if pocma K then v_aid src else v_aid d) /\
+  (src' = moved_from src \/ exists ms, src' = set_mem src ms).
+Proof. exact move_assign_spec_nt. Qed.
+Print Assumptions C08_move_assignment_every_list.
